@@ -59,6 +59,13 @@ def scenarios(nmax, bmax, wmax, faults=True):
             for j in sorted({0, n - 1}):
                 out.append(cs.make(entry, n, b, w, faults={'src': {str(j): 'value'}}))
                 out.append(cs.make(entry, n, b, w, faults={'fn': {str(j): 'user'}}))
+                if entry in ('pf1', 'pft', 'parmap', 'chain', 'chainmid', 'chainpar'):
+                    # the same through .items(): the keyed iteration of a stage
+                    # is other code than the plain one
+                    out.append(cs.make(entry, n, b, w, faults={'fn': {str(j): 'user'}},
+                                       key=True))
+                    if j == 0 and n >= 2:
+                        out.append(cs.make(entry, n, b, w, stop=['close', 1], key=True))
                 if n >= 2:
                     out.append(cs.make(entry, n, b, w, stop=['close', 1],
                                        faults={'fn': {str(n - 1): 'value'}}))
